@@ -307,6 +307,9 @@ func (m *c13Model) quality(p *c13UPath, class string) string {
 		}
 		return ""
 	}
+	if p.blockWhy != "" && (class == "create" || class == "update") {
+		return p.blockWhy
+	}
 	switch class {
 	case "create":
 		al, _ := m.actionLit(p.appended[0])
